@@ -1,12 +1,23 @@
 //! vcheck — one sub-command per property. See /verif/DESIGN.md.
+//!
+//! Process model: `vcheck <ID> ...` is a *supervisor* that re-executes itself as a worker. The worker runs the
+//! sharded exploration on threads, catches panics per case, writes evidence and replay files. The supervisor only
+//! matters when the worker dies (abort, stack overflow, allocator trap) or a case hangs: it reads the slot file in
+//! which every worker thread publishes the case it is executing, re-executes the suspects in fresh processes and
+//! reports the one that reproduces as a violation; anything it cannot pin down is exit 2 (inconclusive).
+mod alloc;
 mod props;
 mod run;
 
 use run::{Cx, Tier, Verdict};
 use serde_json::{json, Value};
 use std::path::PathBuf;
-use std::time::Instant;
+use std::sync::atomic::Ordering;
+use std::time::{Duration, Instant};
 use vmodel::evidence::{evidence_json, Acc, EvidenceMeta};
+
+#[global_allocator]
+static GLOBAL: alloc::Tracking = alloc::Tracking;
 
 pub struct PropResult {
     pub acc: Acc,
@@ -30,7 +41,7 @@ pub const PROFILE: &str = "checked";
 #[cfg(not(debug_assertions))]
 pub const PROFILE: &str = "release";
 
-fn verif_root() -> PathBuf {
+pub fn verif_root() -> PathBuf {
     PathBuf::from(std::env::var("VERIF_ROOT").unwrap_or_else(|_| "/verif".to_string()))
 }
 
@@ -43,25 +54,52 @@ fn usage() -> ! {
     std::process::exit(2)
 }
 
-fn main() {
+struct Args {
+    id: String,
+    tier: Tier,
+    seed: u64,
+    out: Option<PathBuf>,
+    replay: Option<PathBuf>,
+    also: Option<String>,
+    part: bool,
+    shards: usize,
+    worker: bool,
+    probe: Option<(usize, u64, u64)>,
+    dump: Option<(usize, u64, u64)>,
+    hang_ms: u64,
+}
+
+fn parse_args() -> Args {
     let args: Vec<String> = std::env::args().collect();
     if args.len() < 2 {
         usage();
     }
-    let id = args[1].clone();
-    let mut tier = Tier::Quick;
-    let mut seed: u64 = std::env::var("VERIF_SEED").ok().and_then(|s| s.trim().parse::<i128>().ok()).map(|v| v as u64).unwrap_or(0);
-    let mut out: Option<PathBuf> = None;
-    let mut replay: Option<PathBuf> = None;
-    let mut also: Option<String> = None;
-    let mut part = false;
-    let mut shards = 16usize;
+    let mut a = Args {
+        id: args[1].clone(),
+        tier: Tier::Quick,
+        seed: std::env::var("VERIF_SEED").ok().and_then(|s| s.trim().parse::<i128>().ok()).map(|v| v as u64).unwrap_or(0),
+        out: None,
+        replay: None,
+        also: None,
+        part: false,
+        shards: 16,
+        worker: false,
+        probe: None,
+        dump: None,
+        hang_ms: 90_000,
+    };
+    let triple = |args: &Vec<String>, i: usize| -> (usize, u64, u64) {
+        if i + 3 >= args.len() {
+            usage()
+        }
+        (args[i + 1].parse().unwrap_or_else(|_| usage()), args[i + 2].parse().unwrap_or_else(|_| usage()), args[i + 3].parse().unwrap_or_else(|_| usage()))
+    };
     let mut i = 2;
     while i < args.len() {
         match args[i].as_str() {
             "--tier" => {
                 i += 1;
-                tier = match args[i].as_str() {
+                a.tier = match args[i].as_str() {
                     "quick" => Tier::Quick,
                     "thorough" => Tier::Thorough,
                     _ => usage(),
@@ -69,34 +107,270 @@ fn main() {
             }
             "--seed" => {
                 i += 1;
-                seed = args[i].parse::<i128>().map(|v| v as u64).unwrap_or_else(|_| usage());
+                a.seed = args[i].parse::<i128>().map(|v| v as u64).unwrap_or_else(|_| usage());
             }
             "--out" => {
                 i += 1;
-                out = Some(PathBuf::from(&args[i]));
+                a.out = Some(PathBuf::from(&args[i]));
             }
             "--replay" => {
                 i += 1;
-                replay = Some(PathBuf::from(&args[i]));
+                a.replay = Some(PathBuf::from(&args[i]));
             }
             "--also" => {
                 i += 1;
-                also = Some(args[i].clone());
+                a.also = Some(args[i].clone());
             }
             "--shards" => {
                 i += 1;
-                shards = args[i].parse().unwrap_or_else(|_| usage());
+                a.shards = args[i].parse().unwrap_or_else(|_| usage());
             }
-            "--part" => part = true,
+            "--hang-ms" => {
+                i += 1;
+                a.hang_ms = args[i].parse().unwrap_or_else(|_| usage());
+            }
+            "--probe" => {
+                a.probe = Some(triple(&args, i));
+                i += 3;
+            }
+            "--dump" => {
+                a.dump = Some(triple(&args, i));
+                i += 3;
+            }
+            "--part" => a.part = true,
+            "--worker" => a.worker = true,
             _ => usage(),
         }
         i += 1;
     }
-    let prop: &'static str = Box::leak(id.clone().into_boxed_str());
-    let cx = Cx { prop, tier, seed, shards, profile: PROFILE };
-    run::install_panic_hook();
+    a
+}
 
-    if let Some(path) = replay {
+fn main() {
+    let a = parse_args();
+    if a.worker || a.probe.is_some() || a.dump.is_some() {
+        worker(a)
+    } else {
+        supervise(a)
+    }
+}
+
+// ------------------------------------------------------------------------------------------------
+// supervisor
+
+fn work_dir(id: &str) -> PathBuf {
+    let d = out_root().join("work").join(format!("{id}-{PROFILE}-{}", std::process::id()));
+    std::fs::create_dir_all(&d).expect("work dir");
+    d
+}
+
+enum End {
+    Status(std::process::ExitStatus),
+    Hang(usize, u64, u64),
+}
+
+fn run_child(args: &[String], slots: &str, fatal: &str, hang_ms: u64, overall: Duration) -> End {
+    let exe = std::env::current_exe().expect("current exe");
+    let mut child = std::process::Command::new(exe).args(args).env("VCHECK_SLOTS", slots).env("VCHECK_FATAL", fatal).spawn().expect("spawn worker");
+    let base = run::map_slots(slots);
+    let t0 = Instant::now();
+    loop {
+        match child.try_wait() {
+            Ok(Some(st)) => return End::Status(st),
+            Ok(None) => {}
+            Err(e) => {
+                eprintln!("wait failed: {e}");
+                std::process::exit(2)
+            }
+        }
+        std::thread::sleep(Duration::from_millis(100));
+        let now = run::now_ms();
+        for shard in 0..run::MAX_SLOTS {
+            let s = unsafe { &*base.add(shard) };
+            if s.active.load(Ordering::Acquire) == 1 {
+                let started = s.started_ms.load(Ordering::Relaxed);
+                if now.saturating_sub(started) > hang_ms {
+                    let r = End::Hang(shard, s.stream.load(Ordering::Relaxed), s.index.load(Ordering::Relaxed));
+                    let _ = child.kill();
+                    let _ = child.wait();
+                    return r;
+                }
+            }
+        }
+        if t0.elapsed() > overall {
+            let _ = child.kill();
+            let _ = child.wait();
+            eprintln!("worker exceeded the overall time budget of {:?}: inconclusive", overall);
+            std::process::exit(2);
+        }
+    }
+}
+
+fn supervise(a: Args) -> ! {
+    let dir = work_dir(&a.id);
+    let slots = dir.join("slots").to_string_lossy().to_string();
+    let fatal = dir.join("fatal").to_string_lossy().to_string();
+    let mut args: Vec<String> = std::env::args().skip(1).collect();
+    args.push("--worker".into());
+    let overall = Duration::from_secs(if a.tier == Tier::Quick { 1_800 } else { 6 * 3_600 });
+    let end = run_child(&args, &slots, &fatal, a.hang_ms, overall);
+    let cleanup = || {
+        std::fs::remove_dir_all(&dir).ok();
+    };
+    if a.replay.is_some() {
+        // a replay that kills its process reproduces, by definition
+        match end {
+            End::Status(st) => match st.code() {
+                Some(c) if c == 0 || c == 1 || c == 2 => {
+                    cleanup();
+                    std::process::exit(c)
+                }
+                _ => {
+                    println!("replay reproduces: the process died ({st})");
+                    println!("VIOLATION property={} replay={}", a.id, a.replay.as_ref().unwrap().display());
+                    cleanup();
+                    std::process::exit(1)
+                }
+            },
+            End::Hang(..) => {
+                println!("replay reproduces: no result within {} ms", a.hang_ms);
+                println!("VIOLATION property={} replay={}", a.id, a.replay.as_ref().unwrap().display());
+                cleanup();
+                std::process::exit(1)
+            }
+        }
+    }
+    let base_args: Vec<String> = vec![a.id.clone(), "--tier".into(), if a.tier == Tier::Quick { "quick".into() } else { "thorough".into() }, "--seed".into(), a.seed.to_string(), "--shards".into(), a.shards.to_string()];
+    let mut suspects: Vec<(usize, u64, u64, String)> = Vec::new();
+    match end {
+        End::Status(st) => {
+            if let Some(code) = st.code() {
+                if code == 0 || code == 1 || code == 2 {
+                    cleanup();
+                    std::process::exit(code);
+                }
+                if code == alloc::EXIT_ALLOC {
+                    // "alloc <shard> <size>"
+                    let txt = std::fs::read_to_string(&fatal).unwrap_or_default();
+                    let base = run::map_slots(&slots);
+                    for line in txt.lines() {
+                        let p: Vec<&str> = line.split_whitespace().collect();
+                        if p.len() == 3 && p[0] == "alloc" {
+                            if let (Ok(shard), Ok(size)) = (p[1].parse::<usize>(), p[2].parse::<usize>()) {
+                                if shard < run::MAX_SLOTS {
+                                    let s = unsafe { &*base.add(shard) };
+                                    suspects.push((shard, s.stream.load(Ordering::Relaxed), s.index.load(Ordering::Relaxed), format!("a single allocation request of {size} bytes (above the {} byte trap)", alloc::HARD_CAP)));
+                                }
+                            }
+                        }
+                    }
+                }
+            }
+            if suspects.is_empty() {
+                // killed by a signal, or an unexpected status: every case that was in flight is a suspect
+                let base = run::map_slots(&slots);
+                for shard in 0..run::MAX_SLOTS {
+                    let s = unsafe { &*base.add(shard) };
+                    if s.active.load(Ordering::Acquire) == 1 {
+                        suspects.push((shard, s.stream.load(Ordering::Relaxed), s.index.load(Ordering::Relaxed), format!("the process died ({st})")));
+                    }
+                }
+                eprintln!("worker ended abnormally ({st}); {} cases were in flight", suspects.len());
+            }
+        }
+        End::Hang(shard, stream, index) => {
+            eprintln!("case shard={shard} stream={stream} index={index} has been running for more than {} ms", a.hang_ms);
+            suspects.push((shard, stream, index, format!("no result within {} ms", a.hang_ms)));
+        }
+    }
+    // re-execute each suspect alone, twice, in fresh processes
+    for (shard, stream, index, what) in &suspects {
+        let mut reproduced = 0;
+        let mut how = String::new();
+        for _attempt in 0..2 {
+            let mut pa = base_args.clone();
+            pa.extend(["--probe".into(), shard.to_string(), stream.to_string(), index.to_string()]);
+            let s2 = dir.join("slots2").to_string_lossy().to_string();
+            std::fs::remove_file(&s2).ok();
+            match run_child(&pa, &s2, &fatal, a.hang_ms, Duration::from_secs(600)) {
+                End::Status(st) => match st.code() {
+                    Some(0) | Some(2) => {}
+                    Some(1) => {
+                        reproduced += 1;
+                        how = "the oracle fails".into();
+                    }
+                    Some(c) if c == alloc::EXIT_ALLOC => {
+                        reproduced += 1;
+                        how = what.clone();
+                    }
+                    _ => {
+                        reproduced += 1;
+                        how = format!("the process dies ({st})");
+                    }
+                },
+                End::Hang(..) => {
+                    reproduced += 1;
+                    how = format!("no result within {} ms", a.hang_ms);
+                }
+            }
+        }
+        if reproduced == 2 {
+            let mut da = base_args.clone();
+            da.extend(["--dump".into(), shard.to_string(), stream.to_string(), index.to_string()]);
+            let out = std::process::Command::new(std::env::current_exe().unwrap()).args(&da).output().expect("dump");
+            let case: Value = serde_json::from_slice(&out.stdout).unwrap_or(json!({"regen": {"shard": shard, "stream": stream, "index": index}}));
+            let rdir = out_root().join("replays").join(&a.id);
+            std::fs::create_dir_all(&rdir).ok();
+            let path = rdir.join(format!("{:016x}.json", vmodel::hash_json(&case)));
+            let body = json!({"property": a.id, "profile": PROFILE, "seed": a.seed, "what": how, "case": case});
+            std::fs::write(&path, serde_json::to_string_pretty(&body).unwrap()).expect("write replay");
+            println!("violation ({PROFILE}): executing this case alone, twice: {how}");
+            println!("VIOLATION property={} replay={}", a.id, path.display());
+            cleanup();
+            std::process::exit(1);
+        }
+    }
+    eprintln!("the abnormal end of the worker could not be reproduced from the cases that were in flight: inconclusive");
+    cleanup();
+    std::process::exit(2)
+}
+
+// ------------------------------------------------------------------------------------------------
+// worker
+
+fn worker(a: Args) -> ! {
+    let id = a.id.clone();
+    let prop: &'static str = Box::leak(id.clone().into_boxed_str());
+    let cx = Cx { prop, tier: a.tier, seed: a.seed, shards: a.shards, profile: PROFILE };
+    run::install_panic_hook();
+    if let Ok(p) = std::env::var("VCHECK_SLOTS") {
+        run::init_slots(&p);
+    }
+    if let Ok(p) = std::env::var("VCHECK_FATAL") {
+        alloc::set_fatal_path(&p);
+    }
+
+    if let Some((shard, stream, index)) = a.dump {
+        let case = props::regen(&cx, shard, stream, index).unwrap_or(Value::Null);
+        println!("{}", serde_json::to_string(&case).unwrap());
+        std::process::exit(0);
+    }
+    if let Some((shard, stream, index)) = a.probe {
+        let case = match props::regen(&cx, shard, stream, index) {
+            Some(c) => c,
+            None => std::process::exit(2),
+        };
+        run::set_my_shard(0);
+        run::slot_begin(stream, index);
+        let code = match run::guarded(|| props::replay(&cx, &case)) {
+            Ok(Verdict::Fail(_)) | Err(_) => 1,
+            Ok(_) => 0,
+        };
+        run::slot_end();
+        std::process::exit(code);
+    }
+
+    if let Some(path) = a.replay {
         let text = std::fs::read_to_string(&path).unwrap_or_else(|e| {
             eprintln!("cannot read {}: {e}", path.display());
             std::process::exit(2)
@@ -105,9 +379,13 @@ fn main() {
             eprintln!("bad replay file: {e}");
             std::process::exit(2)
         });
-        run::QUIET.store(false, std::sync::atomic::Ordering::Relaxed);
+        run::QUIET.store(false, Ordering::Relaxed);
         let case = v.get("case").cloned().unwrap_or(Value::Null);
-        match run::guarded(|| props::replay(&cx, &case)) {
+        run::set_my_shard(0);
+        run::slot_begin(255, 0);
+        let r = run::guarded(|| props::replay(&cx, &case));
+        run::slot_end();
+        match r {
             Ok(Verdict::Fail(why)) => {
                 println!("replay reproduces: {why}");
                 println!("VIOLATION property={} replay={}", id, path.display());
@@ -131,15 +409,10 @@ fn main() {
 
     // the same exploration under the other build profile (overflow checks off), where the property asks for both
     let mut other_profile = Value::Null;
-    if let Some(bin) = also {
+    if let Some(bin) = a.also {
         let tmp = out_root().join("evidence").join(format!(".{id}.release.part.json"));
         std::fs::create_dir_all(tmp.parent().unwrap()).ok();
-        let status = std::process::Command::new(&bin)
-            .arg(&id)
-            .args(["--tier", cx.tier_name(), "--seed", &seed.to_string(), "--out"])
-            .arg(&tmp)
-            .arg("--part")
-            .status();
+        let status = std::process::Command::new(&bin).arg(&id).args(["--tier", cx.tier_name(), "--seed", &a.seed.to_string(), "--shards", &a.shards.to_string(), "--out"]).arg(&tmp).arg("--part").status();
         match status {
             Ok(st) => match st.code() {
                 Some(0) => {}
@@ -161,14 +434,13 @@ fn main() {
     }
 
     let wall = t0.elapsed().as_secs_f64();
-    // replay files
     let mut vio_lines = Vec::new();
     for v in &res.acc.violations {
         let h = vmodel::hash_json(&v.replay);
         let dir = out_root().join("replays").join(&id);
         std::fs::create_dir_all(&dir).ok();
         let path = dir.join(format!("{h:016x}.json"));
-        let body = json!({"property": id, "profile": PROFILE, "tier": cx.tier_name(), "seed": seed, "what": v.what, "case": v.replay});
+        let body = json!({"property": id, "profile": PROFILE, "tier": cx.tier_name(), "seed": a.seed, "what": v.what, "case": v.replay});
         std::fs::write(&path, serde_json::to_string_pretty(&body).unwrap()).expect("write replay");
         vio_lines.push((v.what.clone(), path));
     }
@@ -179,26 +451,29 @@ fn main() {
         if let Some(n) = other_profile["coverage"]["evaluations"].as_u64() {
             res.acc.bump("evaluations_in_release_profile", n);
         }
+        if other_profile["coverage"]["exhaustive"] == json!(true) {
+            res.exhaustive = Some(true);
+        }
     }
-    let meta = EvidenceMeta { property_id: &id, tier: cx.tier_name(), seed, level: res.level, rule: &res.rule, assumptions: res.assumptions.clone(), exhaustive: res.exhaustive, wall_s: wall, extra };
+    let meta = EvidenceMeta { property_id: &id, tier: cx.tier_name(), seed: a.seed, level: res.level, rule: &res.rule, assumptions: res.assumptions.clone(), exhaustive: res.exhaustive, wall_s: wall, extra };
     let ev = evidence_json(&meta, &res.acc);
-    let out_path = out.unwrap_or_else(|| out_root().join("evidence").join(format!("{id}.json")));
+    let out_path = a.out.unwrap_or_else(|| out_root().join("evidence").join(format!("{id}.json")));
     std::fs::create_dir_all(out_path.parent().unwrap()).ok();
     std::fs::write(&out_path, serde_json::to_string_pretty(&ev).unwrap()).expect("write evidence");
 
     for l in &res.lines {
         println!("{l}");
     }
-    if !part {
-        println!(
-            "{id} [{PROFILE}/{}] seed={seed}: {} cases, {} distinct non-trivial, {} violations, {:.1}s",
-            cx.tier_name(),
-            res.acc.evaluations,
-            res.acc.distinct_nontrivial(),
-            res.acc.violations.len(),
-            wall
-        );
-    }
+    println!(
+        "{id} [{PROFILE}/{}] seed={}: {} cases, {} distinct non-trivial, {} violations, {:.1}s",
+        cx.tier_name(),
+        a.seed,
+        res.acc.evaluations,
+        res.acc.distinct_nontrivial(),
+        res.acc.violations.len(),
+        wall
+    );
+    let _ = a.part;
     for (what, path) in &vio_lines {
         println!("violation ({PROFILE}): {what}");
         println!("VIOLATION property={} replay={}", id, path.display());
